@@ -247,7 +247,38 @@ def check_open(directory, acc):
             acc.outcomes[f"open:{name}:refused"] += 1
             acc.n["traces"] += 1
         out += 1
-    acc.sample({"open": list(cases)}, 1)
+    # a Tdf object made for a valid file; the file is then replaced by something that is not a TDF
+    for name, data in (("replaced-by-nontdf", b"y" * 16 + R.build_file(2, [kdriver.known_record(R.T_EVENTS, 0)])[16:]),
+                       ("replaced-by-empty", b"")):
+        path = os.path.join(directory, "swap.tdf")
+        with open(path, "wb") as f:
+            f.write(R.build_file(2, [kdriver.known_record(R.T_EVENTS, 0)]))
+        t = n.tdf.Tdf(path)
+        with t:
+            pass
+        with open(path, "wb") as f:
+            f.write(data)
+        acc.n["states"] += 1
+        acc.n["evaluations"] += 1
+        acc.n["nontrivial"] += 1
+        acc.n["transitions"] += 1
+        got = None
+        for what, fn in (("enter", lambda: t.__enter__()), ("blocks", lambda: t.blocks), ("has_events", lambda: t.has_events)):
+            try:
+                got = (what, fn())
+                break
+            except Exception:  # noqa: BLE001
+                pass
+        h = getattr(t, "handler", None)
+        if h is not None and not h.closed:
+            h.close()
+        if got is not None:
+            acc.violation("non-tdf-yields-data", f"{PROP}:non-tdf-yields-data:{name}", {"open": name},
+                          f"a Tdf object whose file was {name}: {got[0]} returned {got[1]!r:.60}")
+        else:
+            acc.outcomes[f"open:{name}:refused"] += 1
+            acc.n["traces"] += 1
+    acc.sample({"open": list(cases) + ["replaced-by-nontdf", "replaced-by-empty"]}, 1)
 
 
 def _shard(cfg_w):
@@ -310,6 +341,7 @@ def configs(tier):
     d = 2 if tier == "quick" else 3
     out = [K.Config("N2-T3", 2, [], tr[0], 1, depth=d), K.Config("N3-opaque", 3, [K.opaque_record(0)], tr[1][:2], 1, depth=d, junk=True),
            K.Config("N14-new", 14, "new", tr[2][:2], 1, depth=d)]
+    out.append(K.Config("N3-big", 3, [K.big_record()], (R.T_EVENTS,), 1, depth=1))   # a source of ~840 KB (not a multiple of 64 KB)
     if tier == "thorough":
         out += [K.Config(f"N3-T3-{i}", 3, [], t3, 2, depth=3) for i, t3 in enumerate(tr)]
     return out
